@@ -165,9 +165,9 @@ def res_kind(l):
 # ------------------------------------------------------------------------------------------------
 # generator plans
 
-G_COMMON_QUICK = [['model', 2500, 25], ['fixtures', 4000], ['mut', 1500, 400], ['enum', 2, 0], ['enum', 2, 1],
+G_COMMON_QUICK = [['model', 2500, 25], ['entities', 6], ['entity-boundary', 1], ['fixtures', 4000], ['mut', 1500, 400], ['enum', 2, 0], ['enum', 2, 1],
                   ['enum', 2, 2], ['enum', 2, 3]]
-G_COMMON_THOROUGH = [['model', 40000, 25], ['model', 10000, 0], ['fixtures', 20000], ['mut', 30000, 2000],
+G_COMMON_THOROUGH = [['model', 40000, 25], ['entities', 32], ['entity-boundary', 1], ['exotic', 100], ['model', 10000, 0], ['fixtures', 20000], ['mut', 30000, 2000],
                      ['prefixes', 300]] + [['enum', 3, k] for k in range(6)]
 
 def plan(quick, thorough):
